@@ -1,5 +1,5 @@
 SPEC = {
-    "lean_modules": ["SemaModel.C19.Props", "SemaModel.C19.TextKeys"],
+    "lean_modules": ["SemaModel.C19.Props", "SemaModel.C19.TextKeys", "SemaModel.C19.Range"],
     "lean_dirs": ["SemaModel/C19"],
     "harness": "c19",
     "harness_args": {"quick": ["-n", 1500], "thorough": ["-n", 60000]},
@@ -17,6 +17,8 @@ SPEC = {
         "Sema.C19.termKey_not_document", "Sema.C19.documentKey_not_term",
         "Sema.C19.uint64_roundtrip", "Sema.C19.singleFloat32_roundtrip",
         "Sema.C19.f32vec_roundtrip", "Sema.C19.edgeList_roundtrip", "Sema.C19.f32vec_inj", "Sema.C19.edgeList_inj",
+        "Sema.C19.uint_order_le", "Sema.C19.uint_range", "Sema.C19.int_order_le", "Sema.C19.int_range",
+        "Sema.C19.float_order_le", "Sema.C19.float_range", "Sema.C19.string_range",
     ],
     "trusted_base": [
         "SemaModel/Base/Float.lean: IEEE-754 comparison on bit patterns (sign-magnitude order, NaN unordered, -0 = +0); validated against Go's <, <=, ==, >= 0 on all pairs of a boundary pool and random pairs ('fcmp' op lines)",
